@@ -279,7 +279,8 @@ def specialise (s : Sym) : List Sym → List Sym
 /-- one `Type_Declaration_Stmt` / `Interface_Block`: names it reads are looked up (placeholders are
 created), then the symbol is added, or an earlier placeholder of that name is specialised in place -/
 def addDecl (outer : List Name) (vis : Name → Bool) (tab : List Sym) (s : Sym) : List Sym :=
-  let tab := addPlaceholders outer vis tab s.deps
+  -- an interface block is kept as text: the names it mentions are not looked up
+  let tab := if s.cls == .iface then tab else addPlaceholders outer vis tab s.deps
   if (names tab).contains s.name then specialise s tab else tab ++ [s]
 
 def isDtype (s : Sym) : Bool := s.cls == .dtype
